@@ -28,6 +28,9 @@ const (
 const (
 	asciiMaxControlChar = 31
 	asciiMaxChar        = 127
+
+	// maxQualityDenominator bounds the number of fractional digits of a q-value that are accumulated.
+	maxQualityDenominator = 1_000_000_000_000_000
 )
 
 func init() {
@@ -294,6 +297,9 @@ func expectQuality(s string) (q float64, rest string) {
 		b := s[i]
 		if b < '0' || b > '9' {
 			break
+		}
+		if d >= maxQualityDenominator {
+			continue // further digits are below the precision of a float64 and must not overflow n and d
 		}
 		n = n*10 + int(b) - '0'
 		d *= 10
